@@ -271,7 +271,34 @@ def max_lines_blocks():
         yield f'max-lines-{limit}-{shape}-p{pre}-H{height}', page(body, 200, height), w.groups
 
 
-FAMILIES = [inline_floats, absolutes_long, max_lines_blocks, footnotes_in_columns, floats_definite, table_spans, footer_tables, column_spans,
+def floats_first_on_page():
+    """A float is the first thing laid out on its page (first page, or after ten lines that fill the previous one)
+    and the block after it does not fit under it: the float is content placed on the page, so the block is not "the
+    first content of the page" and must go to the next page (paragraph lines, an unbreakable block of fixed height,
+    table rows, nested blocks; full-width float or clear: both after a narrow one)."""
+    for fh, follower, narrow, pre in itertools.product((75, 85, 95, 100), ('para', 'fixed', 'table', 'nested'),
+                                                       (False, True), (0, 10)):
+        w = Words()
+        body = ''.join(f'<p>{w.take(1)[0]}</p>' for _ in range(pre))
+        ftext = w.take(1, 'oof', ('float',))[0]
+        width = '50px' if narrow else '100%'
+        clear = 'clear:both;' if narrow else ''
+        body += f'<div style="float:left;width:{width};height:{fh}px">{ftext}</div>'
+        if follower == 'para':
+            body += f'<p style="{clear}">' + '<br>'.join(w.take(1)[0] for _ in range(3)) + '</p>'
+        elif follower == 'fixed':
+            body += f'<div style="{clear}height:30px;padding-top:4px;border-top:2px solid"></div><p>{w.take(1)[0]}</p>'
+        elif follower == 'table':
+            body += (f'<table style="{clear}border-spacing:0">'
+                     + ''.join(f'<tr><td>{w.take(1, ctx=("table",))[0]}</td></tr>' for _ in range(3)) + '</table>')
+        else:
+            body += (f'<div style="{clear}"><div><p>' + '<br>'.join(w.take(1)[0] for _ in range(3))
+                     + '</p></div></div>')
+        body += f'<p>{w.take(1)[0]}</p>'
+        yield f'float-first-h{fh}-{follower}-n{int(narrow)}-p{pre}', page(body, 200, 100), w.groups
+
+
+FAMILIES = [floats_first_on_page, inline_floats, absolutes_long, max_lines_blocks, footnotes_in_columns, floats_definite, table_spans, footer_tables, column_spans,
             footnotes_plain, floats_long, forced_breaks_in_tables, padded_containers]
 
 
